@@ -346,9 +346,10 @@ def oracle_extract(case: Dict[str, Any], obs: Dict[str, Any]) -> List[Dict[str, 
 class Check(PropertyCheck):
     id = 'C09'
     props_module = 'Props.C09'
-    models = {'segments': 'XSegments.v', 'fields': 'XFields.v', 'epyinline': 'XEpyInline.v', 'extract': 'XExtractFields.v', 'rstfields': 'XRstFields.v', 'epystruct': 'XEpyStruct.v'}
+    models = {'segments': 'XSegments.v', 'fields': 'XFields.v', 'epyinline': 'XEpyInline.v', 'extract': 'XExtractFields.v', 'rstfields': 'XRstFields.v', 'epystruct': 'XEpyStruct.v',
+              'fields_ir': 'XFieldsIR.v'}
     needs_gen = True
-    gen_modules = ['gen_c09']
+    gen_modules = ['gen_c09', 'gen_c09_code']
     rule = ('(A) code/doctest bodies: every string of <= N characters over a 10-letter alphabet of the characters the '
             'highlighter reacts to, a corpus, generated Python snippets / doctest sessions and random junk; non-trivial = at '
             'least 3 yielded pieces of 2 different styles; (B) field lists: every list of <= 2 fields over every handler tag '
@@ -362,6 +363,12 @@ class Check(PropertyCheck):
     trusted_base = [
         'Coq 8.16.1 kernel; vm_compute for the _refuted witnesses, Examples and table well-formedness; no native_compute; no axioms',
         'translator harness/gen/gen_c09.py (fail-closed): handle_* table, format() plan, str.rstrip class, pinned PROMPT2_RE/DEFINE_FUNC_RE',
+        'translator harness/gen/gen_c09_code.py (fail-closed): the bodies of FieldHandler._report_unexpected_argument, _handle_param_name, '
+        '_handle_param_not_found, handle_<tag> x14, handleUnknownField and resolve_types, statement by statement, into the language of Model/FieldsIR.v '
+        '(Gen/FieldsCode.v); the meaning that Model/FieldsIR.v gives to its primitives (field.format() = the stan of the body, '
+        'linker.link_to = a tag showing the name, str.lstrip/%-format/f-string/==, isinstance on self.obj, dict/list/defaultdict '
+        'operations incl. pop/KeyError/values/remove, enumerate, attrs classes as records with value semantics, the pinned '
+        '_SignatureDesc.is_documented) -- sampled against the real class by the fields_ir leg of the correspondence',
         'oracle contracts (Spec/Conserve.v): what re.finditer guarantees about DOCTEST_RE / DOCTEST_EXAMPLE_RE matches '
         '(checked on every span the real `re` returned during the run)',
         'extraction ExtrOcamlBasic only + coq/ocaml/driver.ml',
@@ -385,7 +392,15 @@ class Check(PropertyCheck):
                  'the docstring (C09_plaintext_exact). Tie: exhaustive + random piece-for-piece correspondence of both models '
                  'with the real functions (real regex spans fed to the model, contract checked on them), and a structure-aware '
                  'document generator rendered through format_docstring in epytext / reST / google / numpy / plaintext with the '
-                 'property as oracle (word sequence of the description, verbatim blocks, every field under its entry or warned).'),
+                 'property as oracle (word sequence of the description, verbatim blocks, every field under its entry or warned). '
+                 'Tie of the FieldHandler model as THEOREMS: harness/gen/gen_c09_code.py translates the current bodies of handle / '
+                 'handle_<tag> / handleUnknownField / _handle_param_name / _handle_param_not_found / _report_unexpected_argument '
+                 'and resolve_types into a small statement language (Model/FieldsIR.v, Gen/FieldsCode.v) and C09_code_handle_is_model, '
+                 '_handle_all_, _handler_, _unknown_field_, _param_name_, _param_not_found_, _unexpected_argument_, _resolve_types_, '
+                 '_final_state_is_model prove that interpreting THAT code is Model/Fields.v for every object, field and state (same '
+                 'buckets, same duplicate handling, same parameter order, same warning texts via Spec/Routing.render_report); '
+                 'C09_code_fields_routed states the property on the translated code; the interpreted code is a third leg of the '
+                 'correspondence. format() stays hand-modelled over the regenerated plan (sampled).'),
         'note': ('Also proved since the first version: extract_fields lands every @ivar/@cvar/@var/@type on exactly one '
                  'attribute or reports it (C09_extract_fields_routed_partial, guard = replaced by a later field for the same '
                  'name and slot); the reST field splitter can only keep a field as it is, split a well-formed consolidated '
@@ -484,6 +499,22 @@ class Check(PropertyCheck):
         out: List[Violation] = []
         obs = lib.run_impl_worker('c09_fields.py', cases, jobs=16)
         mod = self.model('fields', [field_model_input(c) for c in cases])
+        # the interpretation of the code TRANSLATED from epydoc2stan.py (Gen/FieldsCode.v): third leg of the comparison
+        modir = self.model('fields_ir', [field_model_input(c) for c in cases])
+        nir = 0
+        for c, o, mi in zip(cases, obs, modir):
+            ir = dec(mi)
+            if ir[0] != 1:
+                canon_ir: Any = 'the interpreter of the translated code is stuck'
+            else:
+                canon_ir = field_model_canon([ir[1], [], ir[3]])
+                canon_ir['reports'] = [[r[0], txt(r[1])] for r in ir[2]]
+            if canon_ir != field_impl_canon(o) and nir < 4:
+                nir += 1
+                out.append(Violation('correspondence', 'the code translated from epydoc2stan.FieldHandler (Gen/FieldsCode.v, interpreted '
+                                     'by Model.FieldsIR) and the real FieldHandler disagree (sections / warnings): the translator or '
+                                     'the statement language misrepresents the source',
+                                     case={'fields': c}, expected=canon_ir, observed=field_impl_canon(o) if not o.get('exc') else o))
         ncorr = 0
         nt = set()
         per_class: Dict[str, int] = {}
